@@ -98,7 +98,10 @@ EXTRA = [
 
 LADDER_Q = [7, 8, 9, 15, 16, 17, 31, 32, 33, 63, 64, 65, 100, 127, 128, 129, 255, 256, 257, 500, 501, 511, 512, 513,
             1000, 1001, 1023, 1024, 1025]
+# dense range: every size (a defect may sit at one particular size, e.g. exactly 73 members)
+LADDER_Q = sorted(set(LADDER_Q) | set(range(7, 131)))
 LADDER_T = LADDER_Q + [2047, 2048, 2049, 4095, 4096, 4097, 10001]
+LADDER_T = sorted(set(LADDER_T) | set(range(7, 301)))
 LADDER_RICH = {9, 17, 33, 65, 100, 129, 257, 501, 513, 1001, 1025}    # quick tier: lengths carrying the full set of ladder cases
 LADDER_TRANS = [0, 1]                   # Identity, Log (indices of TRANS)
 LADDER_K = [2, 3, 6, 7, 33, 100, 200]   # category counts (the quantifier stops at 6; see ASSUMPTIONS)
